@@ -43,6 +43,7 @@ Unsigned == {"priority", "maxcut", "policyfield", "trailing"}
 
 (* tamper variants per field:
    payload   value (a field value changed, still well-formed) | malformed (does not deserialize)
+             | noncanonical (other bytes that decode to the same field values: over-long varint)
    kind      sibling (another command with the same field schema: Create <-> Increment) | unknown
    parent    known (id of another command B already holds) | unknown (random id)
    author    registered (another device registered on the graph) | unknown (random id)
@@ -50,7 +51,7 @@ Unsigned == {"priority", "maxcut", "policyfield", "trailing"}
    sig       flip (one byte changed) | trunc (last byte removed)
    priority  other ; maxcut  plus/minus ; policyfield  set ; trailing  byte appended            *)
 Variants(f) ==
-  CASE f = "payload" -> {"value", "malformed"}
+  CASE f = "payload" -> {"value", "malformed", "noncanonical"}
     [] f = "kind" -> {"sibling", "unknown"}
     [] f = "parent" -> {"known", "unknown"}
     [] f = "author" -> {"registered", "unknown"}
